@@ -56,3 +56,36 @@ package aggregate
 //@   ensures[C08] err-is-unsupported: result1 != nil ==> result1.isNS && isnil(result0)
 //@   ensures[C04,C18] one-table-per-step: result1 == nil ==> len(result0) == stepsBatch && (forall i in 0..stepsBatch :: result0[i] != nil)
 //@   loop 0 invariant 0 <= i && i <= stepsBatch && len(tables) == stepsBatch && fresh(tables) && (forall j in 0..i :: tables[j] != nil)
+
+// ---- hashaggregate.go: aggregate.Next (C04, C18) -------------------------------------------------
+// One output vector per input vector; the parameter of step i of the batch is the sample the
+// parameter operator delivers at position i of ITS batch (NaN if it has none): the parameter
+// operator is pulled exactly once for every batch of the input, so both stay on the same steps.
+// Assumed: the worker hand-off (worker i returns workerTask(i, arg, vector) of the matching Send),
+// and that a batch is not longer than the batch size the operator was built for.
+//@ pred aggInv(a) = a != nil && a.next != nil && a.vectorPool != nil && len(a.params) == a.stepsBatch && len(a.workers) == a.stepsBatch &&
+//@     (forall j in 0..len(a.workers) :: a.workers[j] != nil) && (a.paramOp != nil ==> a.paramOp.oneSamplePerStep)
+//@ func (*aggregate).initializeTables
+//@   trusted not yet under contract (series hashing and table construction); assumed to start the workers
+//@   requires a != nil && ctx != nil
+//@   panics may
+//@   assigns aggregate.aggregate.tables, aggregate.aggregate.series, ghost started
+//@   ensures result == nil ==> forall j in 0..len(a.workers) :: a.workers[j].started
+//@ func (*aggregate).Next
+//@   requires ctx != nil && aggInv(a) && allocated(a.params)
+//@   requires tables-initialized-once: a.once != 0 ==> forall j in 0..len(a.workers) :: a.workers[j].started
+//@   panics may
+//@   ensures[C18] error-means-no-batch: result1 != nil ==> isnil(result0)
+//@   ensures[C04,C07,C18] one-output-vector-per-input-vector: result1 == nil && !isnil(result0) ==> len(result0) == len(callres("model.VectorOperator.Next", 1, 0))
+//@   ensures[C04] parameter-operator-pulled-once-per-batch: result1 == nil && !isnil(result0) ==>
+//@       ncalls("model.VectorOperator.Next") == ite(a.paramOp != nil, 2, 1)
+//@   at line "defer a.next.GetPool().PutVectors(in)" assume sibling-lockstep-batch-fits: len(in) <= a.stepsBatch
+//@   at worker.(*Worker).Send assert[C04] step-gets-its-own-vector: $w == a.workers[i] &&
+//@       $in.T == in[i].T && sameslice($in.Samples, in[i].Samples) && sameslice($in.SampleIDs, in[i].SampleIDs)
+//@   at worker.(*Worker).Send assert[C04] step-gets-its-own-parameter: $arg == a.params[i] &&
+//@       (a.paramOp != nil ==> $arg == ite(i < len(callres("model.VectorOperator.Next", 2, 0)), callres("model.VectorOperator.Next", 2, 0)[i].Samples[0], nan()))
+//@   at worker.(*Worker).GetOutput assert[C04] output-of-the-steps-worker: $w == a.workers[i]
+//@   loop 0 invariant aggInv(a) && (forall j in 0..len(a.workers) :: a.workers[j].started) && len(in) <= a.stepsBatch && !isnil(in)
+//@   loop 0 invariant[C04] parameter-of-step-or-NaN: forall j in 0..rangeindex+1 :: a.params[j] == ite(j < len(args), args[j].Samples[0], nan())
+//@   loop 1 invariant aggInv(a) && (forall j in 0..len(a.workers) :: a.workers[j].started) && len(in) <= a.stepsBatch && !isnil(in) && len(result) == 0 && fresh(result)
+//@   loop 2 invariant aggInv(a) && (forall j in 0..len(a.workers) :: a.workers[j].started) && len(in) <= a.stepsBatch && !isnil(in) && len(result) == rangeindex + 1 && fresh(result) && !isnil(result)
